@@ -47,7 +47,7 @@ class _Unrecognised(Exception):
     pass
 
 
-def analyse_scan_k(prog, rep, kern, entry, k, O, mode, earlier):
+def analyse_scan_k(prog, rep, kern, entry, k, O, mode, earlier, data=None, listparam=None):
     """one directional scan on the interpreted kernel (kai): returns (axis, direction, bound variable).
 
     Facts used: the outer loop's range; the value of every assigned name at the end of an iteration and on each `break`
@@ -58,7 +58,6 @@ def analyse_scan_k(prog, rep, kern, entry, k, O, mode, earlier):
     from ..kai import cond_repr
     from ..kutil import CannotEvaluate, eval_cond_full, flag_setting_paths, guard_atoms
     from ..sym import App, Rat, Sym, walk_atoms
-    data, listparam = kern.params[0], kern.params[1]
     R, C = Rat.atom(App('shape', [data, 0])), Rat.atom(App('shape', [data, 1]))
     site = 'for %s in %s' % (norm(O.node.target), norm(O.node.iter))
 
@@ -501,23 +500,55 @@ def analyse(prog, rep, pubname, mode):
         raise AnalysisIncomplete('%s: scan kernel call not found' % pubname)
     kcall_node, kern, kargs = w.kcall
     entry = pubname
-    ext, data = shape_names(kern)
-    listparam = kern.params[1]
+    # parameter roles from what the kernel does with them: the raster is the one indexed [row, col] / asked for its shape,
+    # the list is the other one
+    def is_raster(fn, p, depth=0):
+        for x in ast.walk(fn.node):
+            if (isinstance(x, ast.Subscript) and isinstance(x.value, ast.Name) and x.value.id == p and
+                    isinstance(x.slice, ast.Tuple) and len(x.slice.elts) == 2) or \
+                    (isinstance(x, ast.Attribute) and x.attr == 'shape' and isinstance(x.value, ast.Name) and x.value.id == p):
+                return True
+            if isinstance(x, ast.Call) and depth < 3:
+                g_ = prog.resolve_callable(fn, fn.module, x.func)
+                if isinstance(g_, Func) and g_ is not fn:
+                    for q, a in list(zip(g_.params, x.args)) + [(k_.arg, k_.value) for k_ in x.keywords if k_.arg]:
+                        if isinstance(a, ast.Name) and a.id == p and q in g_.params and is_raster(g_, q, depth + 1):
+                            return True
+        return False
+    dcand = [p for p in kern.params if is_raster(kern, p)]
+    if len(kern.params) != 2 or len(dcand) != 1:
+        raise AnalysisIncomplete('%s: raster / list parameters of the scan kernel not identified (%s)' % (kern.qualname, dcand))
+    data = dcand[0]
+    listparam = [p for p in kern.params if p != data][0]
+    try:
+        ext, data_ = shape_names(kern)
+    except AnalysisIncomplete:
+        ext = {}
     loops = [s for s in kern.node.body if isinstance(s, ast.For)]
     results = []
     earlier = {}
     from ..kai import interpret
     try:
-        kk = interpret(prog, kern, strict=False)
+        # phases of a split kernel (row scans / column scans in functions of their own) are executed in place
+        kk = interpret(prog, kern, strict=False, inline_all=lambda g_: g_.jit is not None and g_.module is kern.module)
     except AnalysisIncomplete:
         kk = None
+    ktops = []
+    if kk is not None:
+        # the outermost loops of the interpretation, in program order (wherever their text lives)
+        allnodes = {id(L.node): L for L in kk.loops}
+        for L in kk.loops:
+            if not any(M is not L and any(x is L.node for x in ast.walk(M.node)) for M in kk.loops):
+                ktops.append(L)
+    if not loops and ktops:
+        loops = [L.node for L in ktops]
     for lp in loops:
         r = None
         O = next((L for L in kk.loops if L.node is lp), None) if kk is not None else None
         if O is not None:
             mark = len(rep.obs)
             try:
-                r = analyse_scan_k(prog, rep, kern, entry, kk, O, mode, dict(earlier))
+                r = analyse_scan_k(prog, rep, kern, entry, kk, O, mode, dict(earlier), data, listparam)
             except (_Unrecognised, KeyError, AttributeError, IndexError, TypeError):
                 del rep.obs[mark:]          # not a shape the interpreted rule models: the syntactic rule decides
                 r = None
@@ -537,14 +568,29 @@ def analyse(prog, rep, pubname, mode):
     rets = [n for n in kern.own_nodes() if isinstance(n, ast.Return)]
     okr = len(rets) == 1 and isinstance(rets[0].value, ast.Tuple) and \
         [norm(e) for e in rets[0].value.elts] == [role.get(k) for k in EXPECT]
+    if not okr and kk is not None and len(kk.returns) == 1 and hasattr(kk.returns[0][0], 'items') and len(kk.returns[0][0].items) == 4:
+        # by value: component i of the returned tuple is the bound left by the i-th expected scan
+        from ..sym import App as _App
+        seq = []
+        for it_ in kk.returns[0][0].items:
+            a_ = None
+            if isinstance(it_, Rat) and it_.d.is_const() and len(it_.n.t) == 1:
+                (mm_, cc_), = it_.n.t.items()
+                a_ = mm_[0][0] if len(mm_) == 1 and mm_[0][1] == 1 else None
+            L_ = next((L for L in kk.loops if isinstance(a_, _App) and a_.name == 'loopout' and Rat.sym(L.var) == a_.args[1]), None)
+            nm_ = next(iter(a_.args[0].atoms())).name if L_ is not None and isinstance(a_.args[0], Rat) else None
+            r_ = next((r for r, lp_ in zip(results, loops) if r and L_ is not None and lp_ is L_.node), None)
+            seq.append((r_[0], r_[1]) if r_ and r_[2] == nm_ else None)
+        okr = seq == EXPECT
     rep.add('T3-order', kern, entry, norm(rets[0]) if rets else 'return', rets[0].lineno if rets else kern.node.lineno, okr,
             'the kernel must return (top, bottom, left, right) = bounds of (rows asc, rows desc, cols asc, cols desc); '
             'bounds by scan: %s' % role)
     # wrapper: scanned raster, value list, returned window
     scan_p = pub.params[0]
     list_p = pub.params[{'trim': 1, 'crop': 2}[mode]]
-    ok_in = len(kargs) == 2 and kargs[0] in (('attr', ('param', scan_p), 'data'), ('attr', ('param', scan_p), 'values')) and \
-        kargs[1] == ('param', list_p)
+    di, li = kern.params.index(data), kern.params.index(listparam)
+    ok_in = len(kargs) == 2 and kargs[di] in (('attr', ('param', scan_p), 'data'), ('attr', ('param', scan_p), 'values')) and \
+        kargs[li] == ('param', list_p)
     rep.add('T3-input', pub, entry, norm(kcall_node), kcall_node.lineno, ok_in,
             'the scan must read the `%s` raster and the caller\'s value list `%s`' % (scan_p, list_p))
     sliced = pub.params[0] if mode == 'trim' else pub.params[1]
